@@ -73,6 +73,10 @@ pub struct C09 {
     /// a bounded upstream reports an exact size_hint (like a Vec or a range)
     #[serde(default)]
     pub hinted: bool,
+    /// fault: the process's standard output is stalled while the loader runs (a consumer that
+    /// holds the stdout lock, a pipe nobody reads): whoever prints blocks for ever
+    #[serde(default)]
+    pub stdout_stalled: bool,
 }
 
 pub const BOUNDED_N: usize = 400;
@@ -273,7 +277,9 @@ impl Scenario for C09 {
             _ => vec![7, 0, 0, 0],
         };
         let hinted = rng.chance(0.5);
-        C09 { run_seed, cell, mode: SMode::draw(&mut rng), shape, w, n, fault, delays, hinted }
+        // only where a panic is injected: that is where the program might want to print
+        let stdout_stalled = !matches!(fault, Fault::Drop { .. }) && rng.chance(0.3);
+        C09 { run_seed, cell, mode: SMode::draw(&mut rng), shape, w, n, fault, delays, hinted, stdout_stalled }
     }
 
     fn run_seed(&self) -> u64 {
@@ -368,6 +374,9 @@ impl Scenario for C09 {
         if self.n.is_none() {
             push(&|c| c.n = Some(BOUNDED_N));
         }
+        if self.stdout_stalled {
+            push(&|c| c.stdout_stalled = false);
+        }
         if self.delays.iter().any(|d| *d > 0) {
             push(&|c| c.delays = vec![0]);
         }
@@ -431,6 +440,9 @@ impl Scenario for C09 {
         };
         let (bpe_in, bpe_out) = bpe_scratch.as_ref().map(|d| (d.path("corpus.txt"), d.path("merges.bin"))).unwrap_or_default();
         let r = run_process(&spec, move || {
+            if sc.stdout_stalled {
+                rt::stall_stdout();
+            }
             let delays = Arc::new(sc.delays.clone());
             let fn_panic_at = match sc.fault {
                 Fault::FnPanic { j, .. } => Some(j as u64),
@@ -829,6 +841,9 @@ impl C09 {
                     return v("harness:fault-did-not-fire", format!("panic at item {j} never fired; status {:?}", r.status));
                 }
                 stats.fault(if is_src { "upstream_panic_under_lock" } else { "processing_fn_panic" });
+                if self.stdout_stalled {
+                    stats.fault("stalled_standard_output");
+                }
                 match &r.status {
                     Status::Exit(c) if *c != 0 => {
                         if r.hook_calls > 0 {
